@@ -170,7 +170,7 @@ End ApplySim.
 
 (* ---------- Part 2: the quilt layer ---------- *)
 From Coq Require Import String.
-From RQ Require Import Parser Writer Quilt TreeRollback.
+From RQ Require Import Parser Writer Quilt TreeRollback PathProofs.
 Local Notation length := List.length (only parsing).
 
 Section QuiltSim.
@@ -213,7 +213,7 @@ Section QuiltSim.
     end.
 
   Definition wsim (fs1 : fsys) (ov1 : overlay) (fs2 : fsys) (ov2 : overlay) : Prop :=
-    forall k, ressim ms (look fs1 ov1 k) (look fs2 ov2 k) /\ present fs1 ov1 k = present fs2 ov2 k.
+    forall k, canon k = k -> ressim ms (look fs1 ov1 k) (look fs2 ov2 k) /\ present fs1 ov1 k = present fs2 ov2 k.
 
   Lemma get_or_load_look fs ov k :
     get_or_load fs ov k = dor m <- look fs ov k; ROk (m, match ov_get k ov with Some _ => ov | None => ov_set k m ov end).
@@ -254,18 +254,18 @@ Section QuiltSim.
   Lemma wsim_set fs1 ov1 fs2 ov2 k m1 m2 : wsim fs1 ov1 fs2 ov2 -> ms m1 m2 ->
     wsim fs1 (ov_set k m1 ov1) fs2 (ov_set k m2 ov2).
   Proof.
-    intros H Hm k'. destruct (list_eq_dec N.eq_dec k k') as [<-|Hne].
+    intros H Hm k' Hk'. destruct (list_eq_dec N.eq_dec k k') as [<-|Hne].
     - unfold look, present. rewrite !ov_get_set_same. cbn. split; [exact Hm|]. destruct Hm as (_ & Hd & _). rewrite Hd. reflexivity.
-    - unfold look, present. rewrite !(ov_get_set_other k k' _ _ Hne). exact (H k').
+    - unfold look, present. rewrite !(ov_get_set_other k k' _ _ Hne). exact (H k' Hk').
   Qed.
 
   Definition lsim (fs1 fs2 : fsys) (x y : mfile * overlay) : Prop :=
     ms (fst x) (fst y) /\ wsim fs1 (snd x) fs2 (snd y).
 
-  Lemma get_or_load_sim fs1 ov1 fs2 ov2 k : wsim fs1 ov1 fs2 ov2 ->
+  Lemma get_or_load_sim fs1 ov1 fs2 ov2 k : wsim fs1 ov1 fs2 ov2 -> canon k = k ->
     ressim (lsim fs1 fs2) (get_or_load fs1 ov1 k) (get_or_load fs2 ov2 k).
   Proof.
-    intros H. rewrite !get_or_load_look. destruct (H k) as [Hl _].
+    intros H Hk. rewrite !get_or_load_look. destruct (H k Hk) as [Hl _].
     destruct (look fs1 ov1 k) as [m1| |] eqn:E1; destruct (look fs2 ov2 k) as [m2| |] eqn:E2; cbn in Hl |- *;
       try contradiction; auto.
     split; [exact Hl|]. cbn [snd].
@@ -275,7 +275,7 @@ Section QuiltSim.
     assert (W2 : forall k', look fs2 (match ov_get k ov2 with Some _ => ov2 | None => ov_set k m2 ov2 end) k' = look fs2 ov2 k' /\
                           present fs2 (match ov_get k ov2 with Some _ => ov2 | None => ov_set k m2 ov2 end) k' = present fs2 ov2 k').
     { destruct (ov_get k ov2) eqn:G; [auto|]. apply look_cached; assumption. }
-    intros k'. destruct (W1 k') as [A1 B1]. destruct (W2 k') as [A2 B2]. rewrite A1, A2, B1, B2. exact (H k').
+    intros k' Hk'. destruct (W1 k') as [A1 B1]. destruct (W2 k') as [A2 B2]. rewrite A1, A2, B1, B2. exact (H k' Hk').
   Qed.
 
   Lemma choose_filename_present fs ov fp :
@@ -297,8 +297,25 @@ Section QuiltSim.
   Lemma choose_filename_sim fs1 ov1 fs2 ov2 fp : wsim fs1 ov1 fs2 ov2 ->
     choose_filename fs1 ov1 fp = choose_filename fs2 ov2 fp.
   Proof.
-    intros H. rewrite !choose_filename_present. destruct (kold fp) as [o|]; destruct (knew fp) as [n|]; try reflexivity.
-    destruct (H o) as [_ Hp]. rewrite Hp. reflexivity.
+    intros H. rewrite !choose_filename_present. destruct (kold fp) as [o|] eqn:Eo; destruct (knew fp) as [n|]; try reflexivity.
+    assert (Ho : canon o = o).
+    { unfold kold in Eo. destruct (pf_old fp) as [x|]; [|discriminate]. injection Eo as <-. apply canon_idem. }
+    destruct (H o Ho) as [_ Hp]. rewrite Hp. reflexivity.
+  Qed.
+
+  Lemma kold_canon fp o : kold fp = Some o -> canon o = o.
+  Proof. unfold kold. destruct (pf_old fp) as [x|]; [|discriminate]. intros [= <-]. apply canon_idem. Qed.
+  Lemma knew_canon fp n : knew fp = Some n -> canon n = n.
+  Proof. unfold knew. destruct (pf_new fp) as [x|]; [|discriminate]. intros [= <-]. apply canon_idem. Qed.
+
+  Lemma choose_canon fs ov fp t : choose_filename fs ov fp = ROk t -> canon t = t.
+  Proof.
+    rewrite choose_filename_present. destruct (kold fp) as [o|] eqn:Eo; destruct (knew fp) as [n|] eqn:En; try discriminate.
+    - destruct (bytes_eqb o n); [intros [= <-]; eapply kold_canon; eassumption|].
+      destruct (present fs ov o) as [[|]| |]; cbn; try discriminate; intros [= <-];
+        [eapply kold_canon|eapply knew_canon]; eassumption.
+    - intros [= <-]. eapply kold_canon; eassumption.
+    - intros [= <-]. eapply knew_canon; eassumption.
   Qed.
 
   Lemma move_out_sim m1 m2 : ms m1 m2 -> ms (fst (move_out m1)) (fst (move_out m2)) /\ ms (snd (move_out m1)) (snd (move_out m2)).
@@ -315,4 +332,393 @@ Section QuiltSim.
 
   Lemma set_deleted_sim m1 m2 d : ms m1 m2 -> ms (set_deleted m1 d) (set_deleted m2 d).
   Proof. intros (Hc & Hd & Hp). repeat split; auto. Qed.
+
+  (* ---------- statuses ---------- *)
+
+  Definition undosim (x y : option (bool * bool * option mode)) : Prop :=
+    match x, y with
+    | Some (a1, b1, p1), Some (a2, b2, p2) => a1 = a2 /\ b1 = b2 /\ effm p1 = effm p2
+    | None, None => True
+    | _, _ => False
+    end.
+
+  Definition ssim (s1 s2 : status) : Prop :=
+    st_index s1 = st_index s2 /\ st_fp s1 = st_fp s2 /\ st_target s1 = st_target s2 /\ st_final s1 = st_final s2 /\
+    rs (st_report s1) (st_report s2) /\ st_patch s1 = st_patch s2 /\ undosim (st_rename_undo s1) (st_rename_undo s2).
+
+  Definition has (k : bytes) (ov : overlay) : Prop := ov_get k ov <> None.
+  Definition skeys (ov : overlay) (s : status) : Prop :=
+    (has (st_final s) ov /\ has (st_target s) ov) /\ canon (st_final s) = st_final s /\ canon (st_target s) = st_target s.
+  Definition grows (ov ov' : overlay) : Prop := forall k, has k ov -> has k ov'.
+
+  Lemma has_set_same k m ov : has k (ov_set k m ov).
+  Proof. unfold has. rewrite ov_get_set_same. discriminate. Qed.
+
+  Lemma grows_refl ov : grows ov ov.
+  Proof. intros k H. exact H. Qed.
+
+  Lemma grows_trans a c d : grows a c -> grows c d -> grows a d.
+  Proof. intros H1 H2 k H. auto. Qed.
+
+  Lemma grows_set k m ov : grows ov (ov_set k m ov).
+  Proof.
+    intros k' H. unfold has in *. destruct (list_eq_dec N.eq_dec k k') as [<-|Hne].
+    - rewrite ov_get_set_same. discriminate.
+    - rewrite (ov_get_set_other k k' m ov Hne). exact H.
+  Qed.
+
+  Lemma get_or_load_grows fs ov k m ov' : get_or_load fs ov k = ROk (m, ov') -> grows ov ov' /\ has k ov'.
+  Proof.
+    intros H. destruct (get_or_load_cases _ _ _ _ _ H) as [[Hg ->]|(Hg & -> & _)].
+    - split; [apply grows_refl|]. unfold has. rewrite Hg. discriminate.
+    - split; [apply grows_set|apply has_set_same].
+  Qed.
+
+  Definition prs (x y : mfile * freport) : Prop := ms (fst x) (fst y) /\ rs (snd x) (snd y).
+
+  Lemma lift_apply_sim fp m1 m2 d fuzz : ms m1 m2 ->
+    ressim prs (lift (apply_l1 fp m1 d fuzz)) (lift (apply_l1 fp m2 d fuzz)).
+  Proof.
+    intros Hm. unfold apply_l1, Apply.apply.
+    pose proof (apply_internal_sim bytes bytes_eqb effm fp m1 m2 d fuzz (Apply.Normal) (Apply.Normal) Hm I) as H.
+    destruct (apply_internal bytes bytes_eqb fp m1 d fuzz Apply.Normal) as [[a ra]| |];
+      destruct (apply_internal bytes bytes_eqb fp m2 d fuzz Apply.Normal) as [[c rc]| |]; cbn in H |- *; auto.
+  Qed.
+
+  (* what one file patch does to the two worlds *)
+  Definition stepsim (fs1 fs2 : fsys) (st1 st2 : astate) (x y : bool * astate) : Prop :=
+    fst x = fst y /\ wsim fs1 (a_files (snd x)) fs2 (a_files (snd y)) /\
+    grows (a_files st1) (a_files (snd x)) /\ grows (a_files st2) (a_files (snd y)) /\
+    exists new1 new2, a_applied (snd x) = new1 ++ a_applied st1 /\ a_applied (snd y) = new2 ++ a_applied st2 /\
+                      Forall2 ssim new1 new2 /\ Forall (skeys (a_files (snd x))) new1 /\ Forall (skeys (a_files (snd y))) new2 /\
+                      Forall2 (fun s1 s2 => st_index s1 = st_index s2) new1 new2.
+
+  Lemma apply_one_file_patch_sim fs1 fs2 st1 st2 index pn rev fuzz fp :
+    wsim fs1 (a_files st1) fs2 (a_files st2) ->
+    ressim (stepsim fs1 fs2 st1 st2) (apply_one_file_patch fs1 st1 index pn rev fuzz fp)
+                                     (apply_one_file_patch fs2 st2 index pn rev fuzz fp).
+  Proof.
+    intros Hw. unfold apply_one_file_patch. rewrite (choose_filename_sim fs1 _ fs2 _ fp Hw).
+    destruct (choose_filename fs2 (a_files st2) fp) as [target| |] eqn:Ec; cbn [rbind ressim]; auto.
+    pose proof (choose_canon _ _ _ _ Ec) as Hct.
+    pose proof (get_or_load_sim fs1 _ fs2 _ target Hw Hct) as Hl.
+    destruct (get_or_load fs1 (a_files st1) target) as [[file1 ova1]| |] eqn:G1;
+      destruct (get_or_load fs2 (a_files st2) target) as [[file2 ova2]| |] eqn:G2; cbn [ressim fst snd] in Hl; cbn [rbind ressim]; try contradiction; auto.
+    destruct Hl as [Hf Hwa]. cbn [fst snd] in Hf, Hwa.
+    destruct (get_or_load_grows _ _ _ _ _ G1) as [Gr1 Ht1]. destruct (get_or_load_grows _ _ _ _ _ G2) as [Gr2 Ht2].
+    destruct (pf_rename fp).
+    - (* rename *)
+      destruct (knew fp) as [newname|] eqn:En; cbn [ressim]; auto.
+      pose proof (knew_canon _ _ En) as Hcn.
+      destruct (move_out_sim file1 file2 Hf) as [Hstay Htmp].
+      destruct (move_out file1) as [stay1 tmp1]. destruct (move_out file2) as [stay2 tmp2]. cbn [fst snd] in Hstay, Htmp.
+      pose proof (wsim_set _ _ _ _ target _ _ Hwa Hstay) as Hw2.
+      pose proof (get_or_load_sim fs1 _ fs2 _ newname Hw2 Hcn) as Hl2.
+      destruct (get_or_load fs1 (ov_set target stay1 ova1) newname) as [[nf1 ovb1]| |] eqn:G3;
+        destruct (get_or_load fs2 (ov_set target stay2 ova2) newname) as [[nf2 ovb2]| |] eqn:G4; cbn [ressim fst snd] in Hl2; cbn [rbind ressim]; try contradiction; auto.
+      destruct Hl2 as [Hnf Hwb]. cbn [fst snd] in Hnf, Hwb.
+      destruct (get_or_load_grows _ _ _ _ _ G3) as [Gr3 Hn1]. destruct (get_or_load_grows _ _ _ _ _ G4) as [Gr4 Hn2].
+      pose proof (move_in_sim nf1 nf2 tmp1 tmp2 Hnf Htmp) as Hmi.
+      destruct (move_in nf1 tmp1) as [in1|]; destruct (move_in nf2 tmp2) as [in2|]; cbn in Hmi; try contradiction.
+      + (* renamed: apply to the moved file *)
+        pose proof (lift_apply_sim (to_fpatch fp) in1 in2 (if rev then Rev else Fwd) fuzz Hmi) as Ha.
+        destruct (lift (apply_l1 (to_fpatch fp) in1 (if rev then Rev else Fwd) fuzz)) as [[r1 rep1]| |];
+          destruct (lift (apply_l1 (to_fpatch fp) in2 (if rev then Rev else Fwd) fuzz)) as [[r2 rep2]| |];
+          cbn [ressim fst snd] in Ha; cbn [rbind ressim]; try contradiction; auto.
+        destruct Ha as [Hr Hrep]. cbn [fst snd] in Hr, Hrep. unfold stepsim. cbn [fst snd a_files a_applied].
+        split; [destruct Hrep as (E & _); rewrite E; reflexivity|].
+        split; [apply wsim_set; assumption|].
+        assert (Gt1 : grows (a_files st1) (ov_set newname r1 ovb1)).
+        { eapply grows_trans; [exact Gr1|]. eapply grows_trans; [apply grows_set|]. eapply grows_trans; [exact Gr3|apply grows_set]. }
+        assert (Gt2 : grows (a_files st2) (ov_set newname r2 ovb2)).
+        { eapply grows_trans; [exact Gr2|]. eapply grows_trans; [apply grows_set|]. eapply grows_trans; [exact Gr4|apply grows_set]. }
+        split; [exact Gt1|]. split; [exact Gt2|].
+        eexists [_], [_]. split; [reflexivity|]. split; [reflexivity|].
+        split; [constructor; [|constructor]|].
+        { unfold ssim. cbn. destruct Hf as (_ & Hd & _). destruct Hnf as (_ & Hd2 & Hp2). repeat split; auto; apply Hrep. }
+        split; [constructor; [|constructor]; split; cbn; [split; [apply has_set_same|]|split; assumption]|].
+        { apply grows_set, Gr3, has_set_same. }
+        split; [constructor; [|constructor]; split; cbn; [split; [apply has_set_same|]|split; assumption]|].
+        { apply grows_set, Gr4, has_set_same. }
+        constructor; [reflexivity|constructor].
+      + (* refused: the content goes back *)
+        pose proof (get_or_load_sim fs1 _ fs2 _ target Hwb Hct) as Hl3.
+        destruct (get_or_load fs1 ovb1 target) as [[tf1 ovc1]| |] eqn:G5;
+          destruct (get_or_load fs2 ovb2 target) as [[tf2 ovc2]| |] eqn:G6; cbn [ressim fst snd] in Hl3; cbn [rbind ressim]; try contradiction; auto.
+        destruct Hl3 as [Htf Hwc]. cbn [fst snd] in Htf, Hwc.
+        destruct (get_or_load_grows _ _ _ _ _ G5) as [Gr5 _]. destruct (get_or_load_grows _ _ _ _ _ G6) as [Gr6 _].
+        pose proof (move_in_sim tf1 tf2 tmp1 tmp2 Htf Htmp) as Hmi2.
+        assert (Hdel : deleted file1 = deleted file2) by apply Hf.
+        unfold stepsim. cbn [fst snd a_files a_applied]. split; [reflexivity|].
+        split.
+        { destruct (move_in tf1 tmp1) as [t1|]; destruct (move_in tf2 tmp2) as [t2|]; cbn in Hmi2; try contradiction;
+            rewrite Hdel; apply wsim_set; try assumption; apply set_deleted_sim; assumption. }
+        split.
+        { eapply grows_trans; [exact Gr1|]. eapply grows_trans; [apply grows_set|]. eapply grows_trans; [exact Gr3|].
+          eapply grows_trans; [exact Gr5|]. destruct (move_in tf1 tmp1); apply grows_set. }
+        split.
+        { eapply grows_trans; [exact Gr2|]. eapply grows_trans; [apply grows_set|]. eapply grows_trans; [exact Gr4|].
+          eapply grows_trans; [exact Gr6|]. destruct (move_in tf2 tmp2); apply grows_set. }
+        exists [], []. repeat split; constructor.
+    - (* not a rename *)
+      pose proof (lift_apply_sim (to_fpatch fp) file1 file2 (if rev then Rev else Fwd) fuzz Hf) as Ha.
+      destruct (lift (apply_l1 (to_fpatch fp) file1 (if rev then Rev else Fwd) fuzz)) as [[r1 rep1]| |];
+        destruct (lift (apply_l1 (to_fpatch fp) file2 (if rev then Rev else Fwd) fuzz)) as [[r2 rep2]| |];
+        cbn [ressim fst snd] in Ha; cbn [rbind ressim]; try contradiction; auto.
+      destruct Ha as [Hr Hrep]. cbn [fst snd] in Hr, Hrep. unfold stepsim. cbn [fst snd a_files a_applied].
+      split; [destruct Hrep as (E & _); rewrite E; reflexivity|].
+      split; [apply wsim_set; assumption|].
+      split; [eapply grows_trans; [exact Gr1|apply grows_set]|].
+      split; [eapply grows_trans; [exact Gr2|apply grows_set]|].
+      eexists [_], [_]. split; [reflexivity|]. split; [reflexivity|].
+      split; [constructor; [|constructor]; unfold ssim; cbn; repeat split; auto; apply Hrep|].
+      split; [constructor; [|constructor]; split; cbn; [split; apply has_set_same|split; assumption]|].
+      split; [constructor; [|constructor]; split; cbn; [split; apply has_set_same|split; assumption]|].
+      constructor; [reflexivity|constructor].
+  Qed.
+
+  (* ---------- rollback ---------- *)
+
+  Lemma ov_get_sim fs1 ov1 fs2 ov2 k : wsim fs1 ov1 fs2 ov2 -> canon k = k -> has k ov1 -> has k ov2 ->
+    exists m1 m2, ov_get k ov1 = Some m1 /\ ov_get k ov2 = Some m2 /\ ms m1 m2.
+  Proof.
+    intros Hw Hk H1 H2. destruct (Hw k Hk) as [Hl _]. unfold look, has in *.
+    destruct (ov_get k ov1) as [m1|]; [|contradiction]. destruct (ov_get k ov2) as [m2|]; [|contradiction].
+    exists m1, m2. auto.
+  Qed.
+
+  Lemma lift_rollback_sim fp m1 m2 rep1 rep2 : ms m1 m2 -> rs rep1 rep2 ->
+    ressim ms (lift (rollback_l1 fp m1 (r_dir rep1) rep1)) (lift (rollback_l1 fp m2 (r_dir rep2) rep2)).
+  Proof.
+    intros Hm Hr. unfold rollback_l1, Apply.rollback, try_rollback.
+    pose proof Hr as (R1 & R2 & R3 & R4 & R5 & R6). rewrite R2, R3.
+    destruct (negb (Nat.eqb (length (fp_hunks fp)) (length (r_hunks rep2)))); cbn [bind lift ressim]; auto.
+    pose proof (apply_internal_sim bytes bytes_eqb effm fp m1 m2 (opposite (r_dir rep2)) 0 (Rollback rep1) (Rollback rep2) Hm Hr) as H.
+    destruct (apply_internal bytes bytes_eqb fp m1 (opposite (r_dir rep2)) 0 (Rollback rep1)) as [[a ra]| |];
+      destruct (apply_internal bytes bytes_eqb fp m2 (opposite (r_dir rep2)) 0 (Rollback rep2)) as [[c rc]| |];
+      cbn [osim] in H; try contradiction; cbn [bind lift ressim]; auto.
+    destruct H as [Ha (F1 & _)]. cbn [fst snd] in Ha, F1. rewrite F1.
+    destruct (r_failed rc); cbn [bind lift ressim]; auto.
+  Qed.
+
+  Lemma set_deleted_perm_sim m1 m2 d p1 p2 : ms m1 m2 -> effm p1 = effm p2 ->
+    ms (set_deleted_perm m1 d p1) (set_deleted_perm m2 d p2).
+  Proof. intros (Hc & Hd & Hp) He. repeat split; auto. Qed.
+
+  Definition rbsim (fs1 fs2 : fsys) (ov1 ov2 : overlay) (x y : overlay * mfile) : Prop :=
+    wsim fs1 (fst x) fs2 (fst y) /\ ms (snd x) (snd y) /\ grows ov1 (fst x) /\ grows ov2 (fst y).
+
+  Lemma ov_rollback_sim fs1 fs2 ov1 ov2 s1 s2 :
+    wsim fs1 ov1 fs2 ov2 -> ssim s1 s2 -> skeys ov1 s1 -> skeys ov2 s2 ->
+    ressim (rbsim fs1 fs2 ov1 ov2) (ov_rollback ov1 s1) (ov_rollback ov2 s2).
+  Proof.
+    intros Hw (S1 & S2 & S3 & S4 & S5 & S6 & S7) [[K1f K1t] [Cf1 Ct1]] [[K2f K2t] [Cf Ct]]. unfold ov_rollback.
+    rewrite S2, S3, S4 in *.
+    destruct (ov_get_sim _ _ _ _ _ Hw Cf K1f K2f) as (file1 & file2 & -> & -> & Hf).
+    pose proof (lift_rollback_sim (to_fpatch (st_fp s2)) file1 file2 _ _ Hf S5) as Hrb.
+    destruct (lift (rollback_l1 (to_fpatch (st_fp s2)) file1 (r_dir (st_report s1)) (st_report s1))) as [f1| |];
+      destruct (lift (rollback_l1 (to_fpatch (st_fp s2)) file2 (r_dir (st_report s2)) (st_report s2))) as [f2| |];
+      cbn [ressim] in Hrb; try contradiction; cbn [rbind ressim]; auto.
+    destruct (pf_rename (st_fp s2)).
+    2:{ unfold rbsim. cbn [fst snd]. split; [apply wsim_set; assumption|]. split; [assumption|]. split; apply grows_set. }
+    destruct (move_out_sim f1 f2 Hrb) as [Hstay Htmp].
+    destruct (move_out f1) as [stay1 tmp1]. destruct (move_out f2) as [stay2 tmp2]. cbn [fst snd] in Hstay, Htmp.
+    pose proof (wsim_set _ _ _ _ (st_final s2) _ _ Hw Hstay) as Hw1.
+    assert (G1 : grows ov1 (ov_set (st_final s2) stay1 ov1)) by apply grows_set.
+    assert (G2 : grows ov2 (ov_set (st_final s2) stay2 ov2)) by apply grows_set.
+    destruct (ov_get_sim _ _ _ _ _ Hw1 Ct (G1 _ K1t) (G2 _ K2t)) as (old1 & old2 & -> & -> & Hold).
+    pose proof (move_in_sim old1 old2 tmp1 tmp2 Hold Htmp) as Hmi.
+    destruct (move_in old1 tmp1) as [o1|]; destruct (move_in old2 tmp2) as [o2|]; cbn [optsim] in Hmi; try contradiction;
+      cbn [ressim]; auto.
+    destruct (st_rename_undo s1) as [[[od1 nd1] np1]|]; destruct (st_rename_undo s2) as [[[od2 nd2] np2]|];
+      cbn [undosim] in S7; try contradiction.
+    2:{ unfold rbsim. cbn [fst snd ressim]. split; [apply wsim_set; assumption|]. split; [assumption|].
+        split; (eapply grows_trans; [|apply grows_set]); assumption. }
+    destruct S7 as (-> & -> & Hnp).
+    pose proof (wsim_set _ _ _ _ (st_target s2) _ _ Hw1 (set_deleted_sim o1 o2 od2 Hmi)) as Hw2.
+    set (ovb1 := ov_set (st_target s2) (set_deleted o1 od2) (ov_set (st_final s2) stay1 ov1)) in *.
+    set (ovb2 := ov_set (st_target s2) (set_deleted o2 od2) (ov_set (st_final s2) stay2 ov2)) in *.
+    assert (Gb1 : grows ov1 ovb1) by (eapply grows_trans; [exact G1|apply grows_set]).
+    assert (Gb2 : grows ov2 ovb2) by (eapply grows_trans; [exact G2|apply grows_set]).
+    destruct (bytes_eqb (st_final s2) (st_target s2)).
+    { unfold rbsim. cbn [fst snd ressim]. split; [exact Hw2|]. split; [apply set_deleted_sim; assumption|]. split; assumption. }
+    destruct (ov_get_sim _ _ _ _ _ Hw2 Cf (Gb1 _ K1f) (Gb2 _ K2f)) as (nf1 & nf2 & -> & -> & Hnf).
+    pose proof (wsim_set _ _ _ _ (st_final s2) _ _ Hw2 (set_deleted_perm_sim nf1 nf2 nd2 np1 np2 Hnf Hnp)) as Hw3.
+    set (ovc1 := ov_set (st_final s2) (set_deleted_perm nf1 nd2 np1) ovb1) in *.
+    set (ovc2 := ov_set (st_final s2) (set_deleted_perm nf2 nd2 np2) ovb2) in *.
+    assert (Gc1 : grows ov1 ovc1) by (eapply grows_trans; [exact Gb1|apply grows_set]).
+    assert (Gc2 : grows ov2 ovc2) by (eapply grows_trans; [exact Gb2|apply grows_set]).
+    destruct (ov_get_sim _ _ _ _ _ Hw3 Ct (Gc1 _ K1t) (Gc2 _ K2t)) as (t1 & t2 & -> & -> & Ht).
+    unfold rbsim. cbn [fst snd ressim]. auto.
+  Qed.
+
+  (* ---------- the loops ---------- *)
+
+  Lemma skeys_grows ov ov' s : grows ov ov' -> skeys ov s -> skeys ov' s.
+  Proof. intros G [[H1 H2] Hc]. split; [split; apply G; assumption|exact Hc]. Qed.
+
+  Lemma write_rej_bytes_sim s1 s2 : ssim s1 s2 -> write_rej_bytes s1 = write_rej_bytes s2.
+  Proof.
+    intros (_ & S2 & _ & _ & (R1 & R2 & _) & _). unfold write_rej_bytes, write_rej. rewrite S2, R1, R2. reflexivity.
+  Qed.
+
+  (* the two stacks: similar new parts on top of old parts that lie below the patches looked at *)
+  Definition extsim (fs1 fs2 : fsys) (base1 base2 : list status) (st1 st2 : astate) : Prop :=
+    wsim fs1 (a_files st1) fs2 (a_files st2) /\
+    exists new1 new2, a_applied st1 = new1 ++ base1 /\ a_applied st2 = new2 ++ base2 /\
+                      Forall2 ssim new1 new2 /\ Forall (skeys (a_files st1)) new1 /\ Forall (skeys (a_files st2)) new2.
+
+  Definition rendsim (fs1 fs2 : fsys) (base1 base2 : list status) (x y : astate * list rej_file) : Prop :=
+    snd x = snd y /\ extsim fs1 fs2 base1 base2 (fst x) (fst y).
+
+  Lemma render_at_base f base ov index acc : (forall s, In s base -> (st_index s < index)%nat) ->
+    rollback_and_render_rej (S f) {| a_applied := base; a_files := ov |} index acc
+    = ROk ({| a_applied := base; a_files := ov |}, acc).
+  Proof.
+    intros Hb. cbn [rollback_and_render_rej a_applied]. destruct base as [|s rest]; [reflexivity|].
+    specialize (Hb s (or_introl eq_refl)).
+    destruct (Nat.ltb_spec index (st_index s)); [lia|]. destruct (Nat.ltb_spec (st_index s) index); [reflexivity|lia].
+  Qed.
+
+  Lemma render_sim fs1 fs2 index base1 base2 :
+    (forall s, In s base1 -> (st_index s < index)%nat) -> (forall s, In s base2 -> (st_index s < index)%nat) ->
+    forall new1 new2, Forall2 ssim new1 new2 -> forall ov1 ov2 f1 f2 acc,
+    wsim fs1 ov1 fs2 ov2 -> Forall (skeys ov1) new1 -> Forall (skeys ov2) new2 ->
+    (length new1 < f1)%nat -> (length new2 < f2)%nat ->
+    ressim (rendsim fs1 fs2 base1 base2)
+      (rollback_and_render_rej f1 {| a_applied := new1 ++ base1; a_files := ov1 |} index acc)
+      (rollback_and_render_rej f2 {| a_applied := new2 ++ base2; a_files := ov2 |} index acc).
+  Proof.
+    intros Hb1 Hb2 new1 new2 H2. induction H2 as [|s1 s2 n1 n2 Hs Hrest IH]; intros ov1 ov2 f1 f2 acc Hw K1 K2 L1 L2.
+    - destruct f1 as [|f1]; [cbn in L1; lia|]. destruct f2 as [|f2]; [cbn in L2; lia|].
+      cbn [app]. rewrite !render_at_base by assumption.
+      cbn. split; [reflexivity|]. split; [exact Hw|]. exists [], []. repeat split; constructor.
+    - destruct f1 as [|f1]; [cbn in L1; lia|]. destruct f2 as [|f2]; [cbn in L2; lia|].
+      cbn [List.length] in L1, L2. cbn [app rollback_and_render_rej a_applied a_files].
+      pose proof Hs as (I1 & _). rewrite I1.
+      destruct (Nat.ltb index (st_index s2)); [exact I|].
+      inversion K1 as [|? ? Ks1 Kn1]; subst. inversion K2 as [|? ? Ks2 Kn2]; subst.
+      destruct (Nat.ltb (st_index s2) index).
+      { cbn. split; [reflexivity|]. split; [exact Hw|]. exists (s1 :: n1), (s2 :: n2).
+        repeat split; try reflexivity; try assumption. constructor; assumption. }
+      pose proof (ov_rollback_sim fs1 fs2 ov1 ov2 s1 s2 Hw Hs Ks1 Ks2) as Hrb.
+      destruct (ov_rollback ov1 s1) as [[ova1 x1]| |]; destruct (ov_rollback ov2 s2) as [[ova2 x2]| |];
+        cbn [ressim] in Hrb; try contradiction; cbn [rbind ressim]; auto.
+      destruct Hrb as (Hwa & _ & G1 & G2). cbn [fst snd] in Hwa, G1, G2.
+      pose proof Hs as (_ & _ & _ & _ & (Rf & _) & _). rewrite Rf.
+      assert (Kn1' : Forall (skeys ova1) n1) by (eapply Forall_impl; [|exact Kn1]; intros s; apply skeys_grows; exact G1).
+      assert (Kn2' : Forall (skeys ova2) n2) by (eapply Forall_impl; [|exact Kn2]; intros s; apply skeys_grows; exact G2).
+      destruct (r_failed (st_report s2)).
+      + rewrite (write_rej_bytes_sim s1 s2 Hs). destruct (write_rej_bytes s2) as [data| |]; cbn [rbind ressim]; auto.
+        pose proof Hs as (_ & _ & T & _). rewrite T.
+        apply IH; try assumption; lia.
+      + apply IH; try assumption; lia.
+  Qed.
+
+  Definition afsim (fs1 fs2 : fsys) (base1 base2 : list status) (x y : bool * astate) : Prop :=
+    fst x = fst y /\ extsim fs1 fs2 base1 base2 (snd x) (snd y).
+
+  Lemma apply_file_patches_sim fs1 fs2 base1 base2 index sp fuzz : forall fps st1 st2 af,
+    extsim fs1 fs2 base1 base2 st1 st2 ->
+    ressim (afsim fs1 fs2 base1 base2) (apply_file_patches fs1 st1 index sp fuzz fps af)
+                                      (apply_file_patches fs2 st2 index sp fuzz fps af).
+  Proof.
+    induction fps as [|fp fps IH]; intros st1 st2 af Hext; cbn [apply_file_patches].
+    - cbn. split; [reflexivity|exact Hext].
+    - destruct Hext as (Hw & new1 & new2 & E1 & E2 & F2 & K1 & K2).
+      pose proof (apply_one_file_patch_sim fs1 fs2 st1 st2 index (sp_name sp) (sp_reverse sp) fuzz fp Hw) as Hstep.
+      destruct (apply_one_file_patch fs1 st1 index (sp_name sp) (sp_reverse sp) fuzz fp) as [[ok1 sta1]| |];
+        destruct (apply_one_file_patch fs2 st2 index (sp_name sp) (sp_reverse sp) fuzz fp) as [[ok2 sta2]| |];
+        cbn [ressim] in Hstep; try contradiction; cbn [rbind ressim]; auto.
+      destruct Hstep as (Hok & Hwa & G1 & G2 & n1 & n2 & A1 & A2 & Fn & Kn1 & Kn2 & _). cbn [fst snd] in *. subst ok2.
+      apply IH. split; [exact Hwa|]. exists (n1 ++ new1), (n2 ++ new2).
+      rewrite A1, A2, E1, E2, !app_assoc. repeat split; try reflexivity.
+      + apply Forall2_app; assumption.
+      + apply Forall_app. split; [assumption|]. eapply Forall_impl; [|exact K1]. intros s; apply skeys_grows; exact G1.
+      + apply Forall_app. split; [assumption|]. eapply Forall_impl; [|exact K2]. intros s; apply skeys_grows; exact G2.
+  Qed.
+
+  (* every status the new part will ever hold has an index >= lo > the indexes of the old parts; the loop over the
+     patches: same final index, same rejects, similar states *)
+  Definition sersim (fs1 fs2 : fsys) (base1 base2 : list status) (x y : astate * nat * list rej_file) : Prop :=
+    snd (fst x) = snd (fst y) /\ snd x = snd y /\ extsim fs1 fs2 base1 base2 (fst (fst x)) (fst (fst y)).
+
+  Theorem apply_series_sim cfg db fs1 fs2 base1 base2 lo :
+    (forall s, In s base1 -> (st_index s < lo)%nat) -> (forall s, In s base2 -> (st_index s < lo)%nat) ->
+    forall series st1 st2 index, (lo <= index)%nat -> extsim fs1 fs2 base1 base2 st1 st2 ->
+    fst (apply_series cfg db st1 index series fs1) = fs1 /\ fst (apply_series cfg db st2 index series fs2) = fs2 /\
+    ressim (sersim fs1 fs2 base1 base2) (snd (apply_series cfg db st1 index series fs1))
+                                       (snd (apply_series cfg db st2 index series fs2)).
+  Proof.
+    intros Hb1 Hb2. induction series as [|sp rest IH]; intros st1 st2 index Hlo Hext; cbn [apply_series].
+    - cbn. repeat (split; [reflexivity|]). exact Hext.
+    - destruct (db_get (sp_name sp) db) as [data|]; [|cbn; auto].
+      destruct (parse_patch data (sp_strip sp) false) as [[p|pe]| |]; try (cbn; auto; fail).
+      unfold mbind, mget, mlift. cbn [fst snd].
+      pose proof (apply_file_patches_sim fs1 fs2 base1 base2 index sp (c_fuzz cfg) (pp_fps p) st1 st2 false Hext) as Hfp.
+      destruct (apply_file_patches fs1 st1 index sp (c_fuzz cfg) (pp_fps p) false) as [[fl1 sta1]| |];
+        destruct (apply_file_patches fs2 st2 index sp (c_fuzz cfg) (pp_fps p) false) as [[fl2 sta2]| |];
+        cbn [ressim] in Hfp; try contradiction; cbn [fst snd ressim]; auto.
+      destruct Hfp as [Hfl Hexta]. cbn [fst snd] in Hfl, Hexta. subst fl2.
+      destruct fl1.
+      + destruct (c_dry_run cfg); [cbn [mret fst snd ressim]; repeat (split; [reflexivity|]); exact Hexta|].
+        destruct Hexta as (Hwa & n1 & n2 & A1 & A2 & Fn & Kn1 & Kn2).
+        destruct sta1 as [ap1 ova1]. destruct sta2 as [ap2 ova2]. cbn [a_applied a_files] in *. subst ap1 ap2.
+        pose proof (render_sim fs1 fs2 index base1 base2
+                      (fun s H => Nat.lt_le_trans _ _ _ (Hb1 s H) Hlo) (fun s H => Nat.lt_le_trans _ _ _ (Hb2 s H) Hlo)
+                      n1 n2 Fn ova1 ova2 (S (length (n1 ++ base1))) (S (length (n2 ++ base2))) [] Hwa Kn1 Kn2
+                      ltac:(rewrite app_length; lia) ltac:(rewrite app_length; lia)) as Hr.
+        cbn [a_applied].
+        destruct (rollback_and_render_rej (S (length (n1 ++ base1))) {| a_applied := n1 ++ base1; a_files := ova1 |} index [])
+          as [[stb1 rj1]| |];
+        destruct (rollback_and_render_rej (S (length (n2 ++ base2))) {| a_applied := n2 ++ base2; a_files := ova2 |} index [])
+          as [[stb2 rj2]| |]; cbn [ressim] in Hr; try contradiction; cbn [mret fst snd ressim]; auto.
+        destruct Hr as [Hrj Hextb]. cbn [fst snd] in Hrj, Hextb. subst rj2. repeat (split; [reflexivity|]). exact Hextb.
+      + exact (IH sta1 sta2 (S index) ltac:(lia) Hexta).
+  Qed.
+
+  (* ---------- an invocation that starts from the saved tree = the same patches continued in memory ---------- *)
+
+  (* the saved tree reads as the overlay: by cases on whether the name has an overlay entry *)
+  Lemma reload_wsim fs ov fs2 :
+    (forall k m, canon k = k -> ov_get k ov = Some m ->
+       ressim ms (ROk m) (look fs2 [] k) /\ ROk (negb (deleted m)) = present fs2 [] k) ->
+    (forall k, canon k = k -> ov_get k ov = None -> look fs2 [] k = look fs [] k /\ present fs2 [] k = present fs [] k) ->
+    wsim fs ov fs2 [].
+  Proof.
+    intros H1 H2 k Hk. destruct (ov_get k ov) as [m|] eqn:G.
+    - destruct (H1 k m Hk G) as [A B]. unfold look at 1. unfold present at 1. rewrite G. auto.
+    - destruct (H2 k Hk G) as [A B]. rewrite A, B. unfold look, present. rewrite G. cbn [ov_get].
+      split; [|reflexivity]. destruct (has_dotdot k); [reflexivity|].
+      destruct (fs_read fs (normalize k)) as [f|[|]]; cbn; auto; repeat split.
+  Qed.
+
+  Theorem continue_equals_fresh cfg db fs ov applied fs2 lo :
+    wsim fs ov fs2 [] -> (forall s, In s applied -> (st_index s < lo)%nat) ->
+    forall series index, (lo <= index)%nat ->
+    fst (apply_series cfg db {| a_applied := applied; a_files := ov |} index series fs) = fs /\
+    fst (apply_series cfg db {| a_applied := []; a_files := [] |} index series fs2) = fs2 /\
+    ressim (sersim fs fs2 applied [])
+           (snd (apply_series cfg db {| a_applied := applied; a_files := ov |} index series fs))
+           (snd (apply_series cfg db {| a_applied := []; a_files := [] |} index series fs2)).
+  Proof.
+    intros Hw Hb series index Hlo.
+    apply (apply_series_sim cfg db fs fs2 applied [] lo Hb (fun s H => match H with end) series _ _ index Hlo).
+    split; [exact Hw|]. exists [], []. repeat split; constructor.
+  Qed.
+
+  Lemma ms_refl m : ms m m.
+  Proof. repeat split. Qed.
+
+  Lemma wsim_refl fs ov : wsim fs ov fs ov.
+  Proof.
+    intros k _. split; [|reflexivity]. destruct (look fs ov k); cbn; auto. apply ms_refl.
+  Qed.
+
+  (* files that were merely loaded (not changed) sit in the overlay: nothing to see *)
+  Lemma wsim_cached fs ov k m : ov_get k ov = None -> look fs ov k = ROk m -> wsim fs (ov_set k m ov) fs ov.
+  Proof.
+    intros Hn Hl k' _. destruct (look_cached fs ov k m Hn Hl k') as [A B]. rewrite A, B.
+    split; [|reflexivity]. destruct (look fs ov k'); cbn; auto. apply ms_refl.
+  Qed.
 End QuiltSim.
